@@ -158,7 +158,7 @@ def draw_program(cs, cfg):
             ops.append({"op": "dense", "mat": m, "harg": arg, "valid": valid})
             if valid:
                 pool.append({"p": m["p"], "q": m["q"], "batch": tuple(m["batch"]), "kind": "dense", "leaf": True,
-                             "jac": False})
+                             "jac": False, "sym": bool(herm)})
         elif k == 5:    # jac operator / abstract base
             if P["dtype"] == "float64" and cs.bool("jac", 2, 3):
                 nout = cs.randint(1, 3, "nout")
@@ -171,6 +171,10 @@ def draw_program(cs, cfg):
             i = cs.draw(len(pool), "i")
             a = pool[i]
             e = cs.weighted([4, 4, 3, 3, 1, 2, 2, 1, 1, 1], "expr")
+            if a["kind"] == "dense" and not a.get("sym") and a["p"] == a["q"] and a["p"] > 1 and cs.bool("herm_claim", 1, 3):
+                # a dense non-Hermitian square operator times itself, claimed Hermitian: checkable, so rejected
+                ops.append({"op": "matmul_hermclaim", "i": i, "j": i, "valid": False})
+                continue
             if e == 0:
                 ops.append({"op": "H", "i": i, "valid": True})
                 pool.append({"p": a["q"], "q": a["p"], "batch": a["batch"], "kind": "H", "leaf": False, "jac": a["jac"]})
@@ -207,8 +211,16 @@ def draw_program(cs, cfg):
                 ops.append({"op": "aah", "i": i, "valid": True})
                 pool.append({"p": a["p"], "q": a["p"], "batch": a["batch"], "kind": "aah", "leaf": False, "jac": a["jac"]})
             elif e == 8:
-                ops.append({"op": "badmul", "i": i, "what": cs.choice(["complex", "tensor", "str"], "badscalar"),
-                            "valid": False})
+                dense_sq = [j for j, b in enumerate(pool) if b["kind"] == "dense" and a["kind"] == "dense" and
+                            a["q"] == b["p"] and a["p"] == b["q"] and a["p"] > 1 and bcast(a["batch"], b["batch"]) is not None
+                            and not b.get("sym") and not a.get("sym")]
+                if dense_sq and cs.bool("herm_claim", 1, 2):
+                    # two dense operators whose (non-Hermitian) product is claimed to be Hermitian: checkable, so rejected
+                    ops.append({"op": "matmul_hermclaim", "i": i, "j": dense_sq[cs.draw(len(dense_sq), "hj")],
+                                "valid": False})
+                else:
+                    ops.append({"op": "badmul", "i": i, "what": cs.choice(["complex", "tensor", "str"], "badscalar"),
+                                "valid": False})
             else:
                 ops.append({"op": "addnum", "i": i, "valid": False})
         elif k == 3:    # apply a product
@@ -542,6 +554,14 @@ def execute(P, pre):
                     A, MA, dA = pool[op["i"]]
                     model, desc = torch.matmul(MA, MA.transpose(-2, -1).conj()), "(%s)@(%s).H[herm]" % (dA, dA)
                     res = A.matmul(A.H, is_hermitian=True)
+                elif k == "matmul_hermclaim":
+                    A, MA, dA = pool[op["i"]]
+                    B, MB, dB = pool[op["j"]]
+                    prod = torch.matmul(MA, MB)
+                    if torch.allclose(prod, prod.transpose(-2, -1).conj(), rtol=1e-3, atol=1e-3):
+                        op = dict(op, valid=True)      # the product happens to be Hermitian: nothing to reject
+                        model, desc = prod, "(%s)@(%s)[herm]" % (dA, dB)
+                    res = A.matmul(B, is_hermitian=True)
                 elif k == "badmul":
                     A, MA, dA = pool[op["i"]]
                     f = {"complex": 1 + 2j, "tensor": torch.tensor(2.0), "str": "2"}[op["what"]]
@@ -624,7 +644,8 @@ def execute(P, pre):
                         break
                     if tuple(int(s) for s in res.shape) != tuple(model.shape):
                         V("shape_property", "operator shape %s, model %s" % (tuple(res.shape), tuple(model.shape)))
-                    pool.append((res, model, desc))
+                    if k != "matmul_hermclaim":     # (the generator did not reserve a pool slot for it)
+                        pool.append((res, model, desc))
             else:
                 if err is None:
                     if k in ("matmul", "add", "sub", "rsub") and isinstance(res, LinearOperator):
